@@ -42,10 +42,29 @@ def address_column(cpu, out):
     return lines
 
 
+def hex_file(segs):
+    """Intel HEX text of [(address, bytes)] segments (type 04 records for the upper address half)"""
+    out = []
+    for a, data in segs:
+        for o in range(0, len(data), 16):
+            chunk = data[o:o + 16]
+            aa = a + o
+            # a record must not cross a 64 KiB boundary
+            parts = [(aa, chunk)] if (aa & 0xffff) + len(chunk) <= 0x10000 else [(aa, chunk[:0x10000 - (aa & 0xffff)]), ((aa | 0xffff) + 1, chunk[0x10000 - (aa & 0xffff):])]
+            for pa, pc in parts:
+                hi = pa >> 16
+                rec = bytes([2, 0, 0, 4, hi >> 8, hi & 0xff])
+                out.append(":" + rec.hex().upper() + "%02X" % ((-sum(rec)) & 0xff))
+                rec = bytes([len(pc), (pa >> 8) & 0xff, pa & 0xff, 0]) + bytes(pc)
+                out.append(":" + rec.hex().upper() + "%02X" % ((-sum(rec)) & 0xff))
+    out.append(":00000001FF")
+    return "\n".join(out) + "\n"
+
+
 def walk_one(a):
     exe, cpu, path, args = a
     try:
-        p = subprocess.run([exe, "-" + cpu, "-bin"] + args + [path], stdout=subprocess.PIPE, stderr=subprocess.STDOUT, timeout=20)
+        p = subprocess.run([exe, "-" + cpu] + ([] if path.endswith(".hex") else ["-bin"]) + args + [path], stdout=subprocess.PIPE, stderr=subprocess.STDOUT, timeout=20)
         return p.returncode, p.stdout.decode(errors="replace")
     except subprocess.TimeoutExpired:
         return -9, "timeout"
@@ -99,6 +118,28 @@ def range_part(chk, tier, seed, rnd):
             cid = "%s.%d" % (cpu, k)
             meta[cid] = (cpu, unit, start, data, low, high, args)
             jobs.append((os.path.join(vdir, "naken_util"), cpu, path, args))
+    # images with a hole of one or two units at a 64 KiB page boundary (hex files; the unwritten units read as 0 and belong
+    # to the range low..high of the whole-image disassembly): below the boundary, above it, on both sides
+    for c in cpus:
+        cpu, bpa = c["name"], c["bpa"]
+        if cpu in ("ps2_ee_vu0", "ps2_ee_vu1"):
+            continue
+        unit = max(bpa, 1)
+        ua = max(unit, c["align"], 1)            # holes and lengths are whole instruction slots
+        for k, (lo_end, hi_start) in enumerate(((0x10000 - ua, 0x10000), (0x10000, 0x10000 + ua), (0x10000 - 2 * ua, 0x10000 + ua))):
+            if tier == "quick" and k != (c["type"] + seed) % 3:
+                continue
+            pat = (k * 7919 + seed * 104729 + c["type"] * 31) % 65536
+            body = (bytes.fromhex("%04x" % pat + K.fill_for(pat | 1, c["type"]))[:16] * (ua + 2))
+            lo_start = 0x10000 - 8 * ua
+            lo = body[:lo_end - lo_start]
+            hi = body[8:8 + 8 * ua]
+            path = os.path.join(wd, "%s_hole%d.hex" % (cpu, k))
+            open(path, "w").write(hex_file([(lo_start, lo), (hi_start, hi)]))
+            data = lo + bytes(hi_start - lo_end) + hi
+            cid = "%s.h%d" % (cpu, k)
+            meta[cid] = (cpu, unit, lo_start, data, lo_start, lo_start + len(data) - 1, ["-disasm"])
+            jobs.append((os.path.join(vdir, "naken_util"), cpu, path, ["-disasm"]))
     with ThreadPoolExecutor(C.NCPU) as ex:
         outs = list(ex.map(walk_one, jobs))
     # decoder lengths at every unit of every file
